@@ -11,6 +11,7 @@ pub mod frames;
 pub mod gen;
 pub mod headers;
 pub mod icc;
+pub mod jpeg;
 pub mod models;
 pub mod modular;
 pub mod src;
